@@ -271,6 +271,8 @@ fn exec_batch(w: &mut World, batch: &[Op], salt: u64, ctx: &mut CaseCtx) -> Resu
     let mut responses: Vec<i64> = vec![];
     // publications of ops that do not wait for a configuration answer
     let mut immediate_pubs = 0usize;
+    // documents whose deletion was reported through their directory
+    let mut must_clear: Vec<usize> = vec![];
     let config_with_closes = batch.len() >= 2 && matches!(batch[0], Op::Config { .. });
     if config_with_closes {
         return exec_config_with_closes(w, batch, salt, ctx);
@@ -351,8 +353,9 @@ fn exec_batch(w: &mut World, batch: &[Op], salt: u64, ctx: &mut CaseCtx) -> Resu
                 let dir = w.sb.ws_file("sub");
                 let _ = std::fs::remove_dir_all(&dir);
                 if w.docs[i].open {
-                    expect_pubs[i] += 1;
-                    immediate_pubs += 1;
+                    // not counted among the publications to wait for: if the server never clears
+                    // the diagnostics, that is a finding of the oracle below, not a stalled run
+                    must_clear.push(i);
                 }
                 w.docs[i].open = false;
                 w.docs[i].ignored.clear();
@@ -486,6 +489,20 @@ fn exec_batch(w: &mut World, batch: &[Op], salt: u64, ctx: &mut CaseCtx) -> Resu
     }
     for id in responses {
         w.s.wait_response(id, T)?;
+    }
+    for &i in &must_clear {
+        let want = before[i] + expect_pubs[i] + 1;
+        let uri = uris[i].clone();
+        // two later requests answered and five seconds gone: the server is idle
+        for _ in 0..2 {
+            let id = w.s.request("workspace/executeCommand", json!({"command": "HarperRecordLint", "arguments": ["{\"LintConfigUpdate\":{}}"]}))?;
+            let _ = w.s.wait_response(id, T);
+            match w.s.pump_until(Duration::from_millis(2500), "empty publication for a document below a deleted directory", |s| s.publications_for(&uri) >= want) {
+                Ok(()) => break,
+                Err(LspError::Timeout(_)) => {}
+                Err(e) => return Err(e),
+            }
+        }
     }
     for i in 0..DOCS.len() {
         let want = before[i] + expect_pubs[i];
